@@ -104,7 +104,7 @@ def _fuzz_chunk(args):
 
     def boom(*a):
         raise TimeoutError()
-    signal.signal(signal.SIGALRM, boom)
+    signal.signal(signal.SIGPROF, boom)      # CPU-time watchdog (independent of the load of the machine)
     for i in range(n):
         k = r.random()
         if k < 0.12:
@@ -128,7 +128,7 @@ def _fuzz_chunk(args):
                 j = r.randrange(len(base))
                 src = base[:j] + r.choice("(){}[]'\"/*\\") + base[j:]
         cnt += 1
-        signal.alarm(25)
+        signal.setitimer(signal.ITIMER_PROF, 25)
         try:
             Context(time_limit=1.0, memory_limit=5_000_000).eval(src)
         except JSSyntaxError as e:
@@ -142,7 +142,7 @@ def _fuzz_chunk(args):
         except BaseException as e:  # noqa
             bad.append((src, "host exception " + type(e).__name__ + ": " + str(e)[:80]))
         finally:
-            signal.alarm(0)
+            signal.setitimer(signal.ITIMER_PROF, 0)
         if len(bad) > 4:
             break
     return cnt, bad
